@@ -194,10 +194,8 @@ def run_case(args):
     try:
         return execute(hist, paths)
     finally:
-        for p in paths.values():
-            if os.path.exists(p):
-                os.unlink(p)
-        os.rmdir(d)
+        import shutil
+        shutil.rmtree(d, ignore_errors=True)        # (side files such as -wal / -shm next to a database are not this check's business)
 
 
 def describe(hist):
@@ -234,7 +232,18 @@ def one_random_db(ctx, src, pre_merge, case_seed, n_reads, path, drop_stats=Fals
         c0.execute("DROP TABLE IF EXISTS sqlite_stat1")
         c0.commit()
         c0.close()
+    if drop_stats or pre_merge:     # the database went through an update() (a second meta row, counters written again) before it is opened for reading
+        try:
+            with dbio.quiet():
+                dbw = gffutils.FeatureDB(path)
+                from gffutils.feature import Feature
+                dbw.update([Feature(seqid="zz", source="s", featuretype="region", start=1, end=2, strand="+", attributes={"later_key": ["v"]})],
+                           make_backup=False, merge_strategy="create_unique", id_spec=lambda f: "autoincrement:y")
+                dbw.conn.close()
+        except Exception:  # noqa
+            pass
     objects0 = schema_objects(path)
+    content0 = G.canon_snap(dbio.proj_file(path))
     import warnings
     with dbio.quiet(), warnings.catch_warnings():
         warnings.simplefilter("ignore")
@@ -250,6 +259,10 @@ def one_random_db(ctx, src, pre_merge, case_seed, n_reads, path, drop_stats=Fals
         db.conn.close()
         os.unlink(path)
         return "open_changed_schema_objects", [], [], False
+    if not pre_merge and G.canon_snap(dbio.proj_file(path)) != content0:
+        db.conn.close()
+        os.unlink(path)
+        return "open_changed_content", [], [], False
     before = (G.canon_snap(dbio.proj_file(path)), sha(path), schema_objects(path))
     seq = [rng.choice(READ_KINDS) for _ in range(n_reads)]
     stmts = []
